@@ -4,6 +4,7 @@ import (
 	"io"
 	"os"
 	"path/filepath"
+	"sync"
 	"time"
 )
 
@@ -11,11 +12,21 @@ type memFS struct {
 	files map[string]*memFile
 }
 
+// memMu guards the state of Mem and of its files. DB methods such as Backup and FileSize call the
+// file system without holding the database lock, concurrently with writers.
+var memMu sync.Mutex
+
 // Mem is a file system backed by memory.
 // It should be used for testing only.
 var Mem FileSystem = &memFS{files: map[string]*memFile{}}
 
 func (fs *memFS) OpenFile(name string, flag int, perm os.FileMode) (File, error) {
+	memMu.Lock()
+	defer memMu.Unlock()
+	return fs.openFile(name, flag, perm)
+}
+
+func (fs *memFS) openFile(name string, flag int, perm os.FileMode) (File, error) {
 	if flag&os.O_APPEND != 0 {
 		// memFS doesn't support opening files in append-only mode.
 		// The database doesn't currently use O_APPEND.
@@ -44,11 +55,13 @@ func (fs *memFS) OpenFile(name string, flag int, perm os.FileMode) (File, error)
 }
 
 func (fs *memFS) CreateLockFile(name string, perm os.FileMode) (LockFile, bool, error) {
+	memMu.Lock()
+	defer memMu.Unlock()
 	f, exists := fs.files[name]
 	if f != nil && f.refs > 0 {
 		return nil, false, os.ErrExist
 	}
-	_, err := fs.OpenFile(name, os.O_CREATE, perm)
+	_, err := fs.openFile(name, os.O_CREATE, perm)
 	if err != nil {
 		return nil, false, err
 	}
@@ -56,6 +69,8 @@ func (fs *memFS) CreateLockFile(name string, perm os.FileMode) (LockFile, bool, 
 }
 
 func (fs *memFS) Stat(name string) (os.FileInfo, error) {
+	memMu.Lock()
+	defer memMu.Unlock()
 	if f, ok := fs.files[name]; ok {
 		return f, nil
 	}
@@ -63,6 +78,8 @@ func (fs *memFS) Stat(name string) (os.FileInfo, error) {
 }
 
 func (fs *memFS) Remove(name string) error {
+	memMu.Lock()
+	defer memMu.Unlock()
 	if _, ok := fs.files[name]; ok {
 		delete(fs.files, name)
 		return nil
@@ -71,6 +88,8 @@ func (fs *memFS) Remove(name string) error {
 }
 
 func (fs *memFS) Rename(oldpath, newpath string) error {
+	memMu.Lock()
+	defer memMu.Unlock()
 	if f, ok := fs.files[oldpath]; ok {
 		delete(fs.files, oldpath)
 		fs.files[newpath] = f
@@ -81,6 +100,8 @@ func (fs *memFS) Rename(oldpath, newpath string) error {
 }
 
 func (fs *memFS) ReadDir(dir string) ([]os.DirEntry, error) {
+	memMu.Lock()
+	defer memMu.Unlock()
 	dir = filepath.Clean(dir)
 	var entries []os.DirEntry
 	for name, f := range fs.files {
@@ -106,6 +127,8 @@ type memFile struct {
 }
 
 func (f *memFile) Close() error {
+	memMu.Lock()
+	defer memMu.Unlock()
 	if f.refs == 0 {
 		return os.ErrClosed
 	}
@@ -121,6 +144,8 @@ func (f *memFile) Unlock() error {
 }
 
 func (f *memFile) ReadAt(p []byte, off int64) (int, error) {
+	memMu.Lock()
+	defer memMu.Unlock()
 	if f.refs == 0 {
 		return 0, os.ErrClosed
 	}
@@ -137,6 +162,8 @@ func (f *memFile) ReadAt(p []byte, off int64) (int, error) {
 }
 
 func (f *memFile) WriteAt(p []byte, off int64) (int, error) {
+	memMu.Lock()
+	defer memMu.Unlock()
 	if f.refs == 0 {
 		return 0, os.ErrClosed
 	}
@@ -149,6 +176,8 @@ func (f *memFile) WriteAt(p []byte, off int64) (int, error) {
 }
 
 func (f *memFile) Stat() (os.FileInfo, error) {
+	memMu.Lock()
+	defer memMu.Unlock()
 	if f.refs == 0 {
 		return f, os.ErrClosed
 	}
@@ -156,6 +185,8 @@ func (f *memFile) Stat() (os.FileInfo, error) {
 }
 
 func (f *memFile) Sync() error {
+	memMu.Lock()
+	defer memMu.Unlock()
 	if f.refs == 0 {
 		return os.ErrClosed
 	}
@@ -173,6 +204,8 @@ func (f *memFile) truncate(size int64) {
 }
 
 func (f *memFile) Truncate(size int64) error {
+	memMu.Lock()
+	defer memMu.Unlock()
 	if f.refs == 0 {
 		return os.ErrClosed
 	}
@@ -181,11 +214,15 @@ func (f *memFile) Truncate(size int64) error {
 }
 
 func (f *memFile) Name() string {
+	memMu.Lock()
+	defer memMu.Unlock()
 	_, name := filepath.Split(f.name)
 	return name
 }
 
 func (f *memFile) Size() int64 {
+	memMu.Lock()
+	defer memMu.Unlock()
 	return f.size
 }
 
@@ -214,6 +251,8 @@ func (f *memFile) Info() (os.FileInfo, error) {
 }
 
 func (f *memFile) Slice(start int64, end int64) ([]byte, error) {
+	memMu.Lock()
+	defer memMu.Unlock()
 	if f.refs == 0 {
 		return nil, os.ErrClosed
 	}
@@ -247,6 +286,8 @@ func (f *seekableMemFile) Write(p []byte) (int, error) {
 }
 
 func (f *seekableMemFile) Seek(offset int64, whence int) (int64, error) {
+	memMu.Lock()
+	defer memMu.Unlock()
 	if f.refs == 0 {
 		return 0, os.ErrClosed
 	}
